@@ -11,7 +11,7 @@ sys.path.insert(0, os.path.dirname(os.path.dirname(os.path.abspath(__file__))))
 import ast
 import z3
 from pyvc import xreal as xr
-from pyvc.numexec import Num, Bool, Unsupported
+from pyvc.numexec import Num, Bool, Unsupported, ANALYSIS
 from pyvc.heap import (alloc, HeapExec, HPath, LoopSpec, Contract, Ref, Str, NONE, XR, cls_of, SeqRef, SeqStr, x2xr, xr2x, RefV, SeqV, StrV, canon, strc, str_distinct)
 from pyvc.parsers import ParserExec, split_fn, join_fn, find_hash, prefix_fn, to_float_ok, to_float_fn, lookup, is_hedge, hedge_tok
 from pyvc.hlib import init_heap, emit, frame_goal
@@ -686,7 +686,7 @@ def build(run):
     for fq, f in plan:
         try:
             f(run)
-        except Unsupported as ex_:
+        except ANALYSIS as ex_:
             run.add(undecided(f"{fq}/subset", f"outside the verified subset: {ex_}", fn=fq, meta={"replay": RP}))
         except NotFound as ex_:
             run.add(static(f"{fq}/exists", False, f"function under contract not found: {ex_}", fn=fq))
